@@ -1,4 +1,148 @@
 /-
-  C07 — random walks.  Property theorems only (filled in as proofs land).
+  C07 — random walk generators: every returned row is a real walk of the recorded length, for ALL random
+  draws (the draws are oracle inputs of the model).  Property theorems only; proofs in `CvProofs/Walks.lean`.
 -/
-import CvModel.Beam
+import CvProofs.Walks
+import CvProofs.RefBfs
+namespace Cv
+
+/-- the 6-cycle on `Nat` used in the non-vacuity examples: generator 0 is `+1`, generator 1 is `-1` -/
+def c6w : Graph Nat :=
+  { nGens := 2, act := fun i x => if i = 0 then (x + 1) % 6 else (x + 5) % 6, hash := fun x => (x : Int),
+    invClosed := true, batchSize := 100 }
+
+/-- the infinite ternary tree on `Nat` (three generators, not inverse closed) -/
+def tree3w : Graph Nat :=
+  { nGens := 3, act := fun i x => 3 * x + i + 1, hash := fun x => (x : Int), invClosed := false,
+    batchSize := 100 }
+
+variable {α : Type}
+
+/-- classic mode, for ALL draws satisfying the contract of `torch.randint` (`DrawsOk`, defined in
+`CvProofs/Walks.lean` exactly as in the task statement) -/
+theorem walksClassic_spec (g : Graph α) (width length : Nat) (hl : 1 ≤ length) (start : α) (draws : List (List Nat))
+    (hd : DrawsOk g width draws (length - 1)) :
+    let out := walksClassic g width length start draws
+    out.length = width * length ∧
+    (∀ k, k < width → out[k]? = some (start, 0)) ∧
+    (∀ k p, out[k]? = some p → p.2 = k / width) ∧
+    (∀ k p q, out[k]? = some p → out[k + width]? = some q → ∃ i, i < g.nGens ∧ q.1 = g.act i p.1) ∧
+    (∀ p ∈ out, Walk g.nb p.2 start p.1) := by
+  exact BW.walksClassic_spec' g width length hl start draws hd
+
+/-- non-vacuity: two walks of three rows each on the 6-cycle; the draws satisfy the contract -/
+theorem c6w_draws : DrawsOk c6w 2 [[0, 1], [0, 0]] (3 - 1) := by
+  refine ⟨by decide, ?_⟩
+  intro k d h
+  match k, h with
+  | 0, h => cases h; decide
+  | 1, h => cases h; decide
+  | k + 2, h => simp at h
+example : walksClassic c6w 2 3 0 [[0, 1], [0, 0]] = [(0, 0), (0, 0), (1, 1), (5, 1), (2, 2), (0, 2)] := by decide
+example : (walksClassic c6w 2 3 0 [[0, 1], [0, 0]]).length = 2 * 3 :=
+  (walksClassic_spec c6w 2 3 (by decide) 0 _ c6w_draws).1
+/-- the contract on the draws is needed: a generator index `≥ nGens` is applied by the model as a "ghost"
+generator and a too short draw truncates the block (`zip`) -/
+example : walksClassic c6w 2 2 0 [[0]] = [(0, 0), (0, 0), (1, 1)] := by decide
+
+/-- nbt mode: for every history depth ≥ 0 and every `perms` (even ill-formed ones) -/
+theorem walksNbt_spec (g : Graph α) (width length historyDepth : Nat) (hl : 1 ≤ length) (start : α)
+    (perms : List (List Nat)) :
+    let out := walksNbt g width length historyDepth start perms
+    (∀ k, k < width → out[k]? = some (start, 0)) ∧ (∀ p ∈ out, Walk g.nb p.2 start p.1) := by
+  exact BW.walksNbt_spec' g width length historyDepth hl start perms
+
+/-- non-vacuity: history depth 1 on the 6-cycle (the walk never steps back), and history depth 0 -/
+example : walksNbt c6w 2 4 2 0 [[0, 3], [0, 3], [0, 3]] =
+    [(0, 0), (0, 0), (1, 1), (5, 1), (2, 2), (3, 3)] := by decide
+example : walksNbt c6w 2 3 0 0 [[3, 0], [1, 2]] = [(0, 0), (0, 0), (5, 1), (1, 1), (2, 2), (4, 2)] := by decide
+/-- ill-formed perms (out-of-range indices are dropped by `gather`) -/
+example : walksNbt c6w 2 3 2 0 [[7, 0, 9], [1, 2]] = [(0, 0), (0, 0), (1, 1), (2, 2)] := by decide
+
+
+/-- evaluation of the BFS-mode generator on concrete inputs (`uniqueStates`/`sortInts` use merge sort, which
+`decide` cannot reduce; `simp` with the equation lemmas can) -/
+local macro "walk_eval" : tactic =>
+  `(tactic| simp [walksBfs, walksBfsLoop, HashSetM.addSorted, HashSetM.unseen, sortInts, Graph.unique,
+      Graph.neighbors, uniqueStates, sortByKey, dedupAdj, List.mergeSort, List.MergeSort.Internal.splitInTwo,
+      gather, isinSorted, searchsorted, c6w, tree3w, List.range, List.range.loop])
+
+/-- BFS mode: for ALL perms that are duplicate-free (the `Nodup` half of `PermOk`, the contract of
+`torch.randperm`): first row is the start state, every row is a real walk of the recorded length, and no
+state is returned twice -/
+theorem walksBfs_spec (g : Graph α) (hinj : Function.Injective g.hash) (width length : Nat) (hw : 1 ≤ width)
+    (hl : 1 ≤ length) (start : α) (perms : List (List Nat)) (hp : ∀ p ∈ perms, p.Nodup) :
+    let out := walksBfs g width length start perms
+    out.head? = some (start, 0) ∧ (∀ p ∈ out, Walk g.nb p.2 start p.1) ∧ (out.map (·.1)).Nodup := by
+  exact BW.walksBfs_spec' g hinj width length hw hl start perms hp
+
+/-- non-vacuity: width 1 on the 6-cycle, every layer (2 states) is thinned with a drawn permutation -/
+example : walksBfs c6w 1 5 0 [[1, 0], [0, 1], [1, 0]] = [(0, 0), (5, 1), (4, 2), (3, 3), (2, 4)] := by walk_eval
+theorem c6w_inj : Function.Injective c6w.hash := by intro a b hab; simp only [c6w] at hab; omega
+example : ((walksBfs c6w 1 5 0 [[1, 0], [0, 1], [1, 0]]).map (·.1)).Nodup :=
+  (walksBfs_spec c6w c6w_inj 1 5 (by decide) (by decide) 0 [[1, 0], [0, 1], [1, 0]] (by decide)).2.2
+
+/-- the `Nodup` hypothesis on the perms is needed: a "permutation" with a repeated index makes the generator
+return a state twice (ternary tree `x ↦ 3x+1, 3x+2, 3x+3`, width 2, first layer `[1,2,3]` thinned by `[0,0]`) -/
+example : walksBfs tree3w 2 2 0 [[0, 0]] = [(0, 0), (1, 1), (1, 1)] := by walk_eval
+
+
+/-- wide and long enough ⇒ exactly all vertices with their true distances (for ALL perms: none is used) -/
+theorem walksBfs_exact (g : Graph α) (hinj : Function.Injective g.hash) (width length : Nat) (start : α)
+    (perms : List (List Nat))
+    (hwide : ∀ (k : Nat) (L : List α), L.Nodup → (∀ x ∈ L, DistLayer g.nb [start] k x) → L.length ≤ width)
+    (ecc : Nat) (hecc : ∀ x, ¬ DistLayer g.nb [start] (ecc + 1) x) (hlen : ecc + 1 < length) (x : α) (k : Nat) :
+    (x, k) ∈ walksBfs g width length start perms ↔ DistLayer g.nb [start] k x := by
+  exact BW.walksBfs_exact' g hinj width length start perms hwide ecc hecc (by omega) x k
+
+/-- (slightly more than requested) `ecc < length` is already enough: `length - 1 ≥ ecc` expansion steps emit the
+classes `1 … ecc` -/
+theorem walksBfs_exact_sharp (g : Graph α) (hinj : Function.Injective g.hash) (width length : Nat) (start : α)
+    (perms : List (List Nat))
+    (hwide : ∀ (k : Nat) (L : List α), L.Nodup → (∀ x ∈ L, DistLayer g.nb [start] k x) → L.length ≤ width)
+    (ecc : Nat) (hecc : ∀ x, ¬ DistLayer g.nb [start] (ecc + 1) x) (hlen : ecc < length) (x : α) (k : Nat) :
+    (x, k) ∈ walksBfs g width length start perms ↔ DistLayer g.nb [start] k x := by
+  exact BW.walksBfs_exact' g hinj width length start perms hwide ecc hecc hlen x k
+
+/-- the distance classes of the 6-cycle from state 0, computed by the verified reference BFS (C17) -/
+theorem c6w_layers : refLayers c6w.nb [0] 10 = [[0], [1, 5], [2, 4], [3]] := by
+  simp [refLayers, refLoop, refStep, sortDedup, dedupSorted, sdiff, List.mergeSort,
+    List.MergeSort.Internal.splitInTwo, Graph.nb, nbOf, c6w, List.range, List.range.loop]
+
+theorem c6w_layer (i : Nat) (L : List Nat) (h : [[0], [1, 5], [2, 4], [3]][i]? = some L) (x : Nat) :
+    x ∈ L ↔ DistLayer c6w.nb [0] i x :=
+  ((refLayers_spec' c6w.nb [0] 10).1 i L (by rw [c6w_layers]; exact h)).2 x
+
+/-- eccentricity 3: class 4 is empty -/
+theorem c6w_ecc : ∀ x, ¬ DistLayer c6w.nb [0] (3 + 1) x := by
+  have := (refLayers_spec' c6w.nb [0] 10).2.2.2.2
+  rw [c6w_layers] at this
+  exact this (by decide)
+
+/-- every distance class has at most 2 states -/
+theorem c6w_wide (k : Nat) (L : List Nat) (hn : L.Nodup) (hL : ∀ x ∈ L, DistLayer c6w.nb [0] k x) : L.length ≤ 2 := by
+  by_cases hk : k < 4
+  · have hex : ∃ M, [[0], [1, 5], [2, 4], [3]][k]? = some M ∧ M.length ≤ 2 := by
+      rcases (by omega : k = 0 ∨ k = 1 ∨ k = 2 ∨ k = 3) with rfl | rfl | rfl | rfl <;> simp
+    obtain ⟨M, hM, hlen⟩ := hex
+    have hsub : L ⊆ M := fun x hx => (c6w_layer k M hM x).2 (hL x hx)
+    exact Nat.le_trans (hn.length_le_of_subset hsub) hlen
+  · cases L with
+    | nil => simp
+    | cons x _ =>
+      exact absurd (hL x (by simp)) (BW.distLayer_empty_above c6w.nb [0] 4 c6w_ecc k (by omega) x)
+
+/-- non-vacuity: width 2, length 5 > 3 + 1 on the 6-cycle: the output is the whole graph with true distances -/
+example (perms : List (List Nat)) (x k : Nat) :
+    (x, k) ∈ walksBfs c6w 2 5 0 perms ↔ DistLayer c6w.nb [0] k x :=
+  walksBfs_exact c6w c6w_inj 2 5 0 perms c6w_wide 3 c6w_ecc (by decide) x k
+example : walksBfs c6w 2 5 0 [] = [(0, 0), (1, 1), (5, 1), (2, 2), (4, 2), (3, 3)] := by walk_eval
+/-- a length hypothesis is needed (`ecc < length` suffices, see `walksBfs_exact_sharp`): with
+`length = 3 = ecc` the last class (state 3) is missing although `DistLayer … 3 3` holds -/
+example : walksBfs c6w 2 3 0 [] = [(0, 0), (1, 1), (5, 1), (2, 2), (4, 2)] ∧ DistLayer c6w.nb [0] 3 3 :=
+  ⟨by walk_eval, (c6w_layer 3 [3] rfl 3).1 (by simp)⟩
+/-- the width hypothesis is needed: with width 1 the layers are thinned -/
+example : walksBfs c6w 1 5 0 [] = [(0, 0), (1, 1), (2, 2), (3, 3), (4, 4)] ∧ DistLayer c6w.nb [0] 1 5 :=
+  ⟨by walk_eval, (c6w_layer 1 [1, 5] rfl 5).1 (by simp)⟩
+
+end Cv
